@@ -3,18 +3,16 @@ C05 — scope semantics and the shared-on-contextual rule (build-time part; the 
 identity across histories is the executable runtime model tied by level B).
 -/
 import GontainerModel.Lemmas.Graph
+import GontainerModel.Lemmas.DepGraph
 import GontainerModel.Lemmas.SortedMap
 import GontainerModel.Model.Runtime
 import GontainerModel.Generated.Template
 namespace GM.C05
 open GM GM.Graph GM.Output
 
-/-- **the scope rule is exact**: `(s, c)` is reported iff `s` is a service declared shared, `c` is
-declared contextual, and `c` is reachable from `s` in the dependency graph (through arguments,
-fields, calls, requested tags → carriers, carried tags → decorators → their dependencies) —
-nothing else is rejected for scope reasons -/
-theorem scope_errors_exact (o : Output) (total : ∀ v ∈ (buildGraph o).nodes, (reach (buildGraph o) v).isSome)
-    (s c : String) :
+/-- **the scope rule is exact** (graph form): `(s, c)` is reported iff `s` is a service declared
+shared, `c` is declared contextual, and `c` is reachable from `s` in the dependency graph -/
+theorem scope_errors_graph (o : Output) (s c : String) :
     (s, c) ∈ scopePairs o ↔
       (∃ sv ∈ o.services, sv.name = s) ∧ scopeOf o s = .shared ∧ scopeOf o c = .contextual ∧
       Path (buildGraph o) (nService s) (nService c) := by
@@ -39,13 +37,7 @@ theorem scope_errors_exact (o : Output) (total : ∀ v ∈ (buildGraph o).nodes,
           simp at hsome
           obtain ⟨rfl, rfl⟩ := hsome
           obtain ⟨sv, hsv, rfl⟩ := List.mem_map.mp hs'1
-          refine ⟨⟨sv, hsv, rfl⟩, hsh, hctx, ?_⟩
-          unfold reachD at hreach
-          cases hr : reach (buildGraph o) (nService sv.name) with
-          | none => rw [hr] at hreach; simp at hreach
-          | some r =>
-            rw [hr] at hreach
-            exact (reach_sound_complete _ _ r hr _).mp (by simpa using hreach)
+          exact ⟨⟨sv, hsv, rfl⟩, hsh, hctx, (mem_reachD _ _ _).mp hreach⟩
         · simp at hsome
       | _ => simp [isServiceNode] at hsome
     · simp at hmem
@@ -56,18 +48,26 @@ theorem scope_errors_exact (o : Output) (total : ∀ v ∈ (buildGraph o).nodes,
     · simp only [hsh, ↓reduceIte, List.mem_filterMap]
       refine ⟨nService c, ?_, by simp [isServiceNode, hctx]⟩
       apply (List.mergeSort_perm _ _).symm.subset
-      refine List.mem_filter.mpr ⟨?_, ?_⟩
-      · have hv := path_start_mem_nodes _ p
-        obtain ⟨r, hr⟩ := Option.isSome_iff_exists.mp (total _ hv)
-        unfold reachD
-        rw [hr]
-        simpa using (reach_sound_complete _ _ r hr _).mpr p
-      · have : nService c ≠ nService sv.name := by
-          intro e
-          have : c = sv.name := by injection e
-          rw [this, hsh] at hctx
-          cases hctx
-        simpa using this
+      refine List.mem_filter.mpr ⟨(mem_reachD _ _ _).mpr p, ?_⟩
+      have : nService c ≠ nService sv.name := by
+        intro e
+        have : c = sv.name := by injection e
+        rw [this, hsh] at hctx
+        cases hctx
+      simpa using this
+
+/-- **the scope rule is exact** (the documentation's terms): `(s, c)` is reported iff `s` is a
+service declared shared, `c` is declared contextual, and `s` transitively depends on `c` — through
+arguments, fields and calls (`allArgs`), requested tags → their carriers, carried tags → decorators →
+their dependencies.  Nothing else is rejected for scope reasons. -/
+theorem scope_errors_exact (o : Output) (s c : String) :
+    (s, c) ∈ scopePairs o ↔
+      (∃ sv ∈ o.services, sv.name = s) ∧ scopeOf o s = .shared ∧ scopeOf o c = .contextual ∧
+      TC (ConfigDep o) (.service s) (.service c) := by
+  rw [scope_errors_graph]
+  have : Path (buildGraph o) (nService s) (nService c) ↔ TC (ConfigDep o) (.service s) (.service c) :=
+    ⟨tc_of_path o (.service s) (.service c), path_of_tc o (.service s) (.service c)⟩
+  rw [this]
 
 /-- accepted for scope reasons ⇔ no pair: the diagnostics are one line per pair -/
 theorem scope_accept_iff (o : Output) : validateScopes o = [] ↔ scopePairs o = [] := by
@@ -111,5 +111,40 @@ theorem contextual_once_per_bag (f : Nat) (p : Runtime.Prog) (st : Runtime.St) (
     Runtime.get (f + 1) p st bag n = (st, bag, .ok v) := by
   unfold Runtime.get
   simp [hov, hs, hsc, hc]
+
+/-- **undeclared scope** (the runtime's rule, as modelled): a service with no declared scope is
+contextual iff it transitively depends — in the documented relation — on a service declared
+contextual, and shared otherwise -/
+theorem default_scope_documented (p : Runtime.Prog) (st : Runtime.St) (n : String) (s : Service)
+    (hov : st.ovServices = []) (hs : Runtime.svcByName p n = some s) (hd : s.scope = .default) :
+    (Runtime.effScope p st n = .contextual ↔
+      ∃ c, scopeOf p.out c = .contextual ∧ TC (ConfigDep p.out) (.service n) (.service c)) ∧
+    (Runtime.effScope p st n = .contextual ∨ Runtime.effScope p st n = .shared) := by
+  have look : ∀ k, (st.ovServices.lookup k) = none := by intro k; rw [hov]; rfl
+  unfold Runtime.effScope
+  simp only [look, Option.isSome_none, Bool.false_eq_true, ↓reduceIte, hs, hd, Option.isNone_none, Bool.true_and]
+  constructor
+  · constructor
+    · intro h
+      split at h
+      · rename_i hany
+        obtain ⟨d, hdm, hdc⟩ := List.any_eq_true.mp hany
+        obtain ⟨id, hid, hsome⟩ := List.mem_filterMap.mp hdm
+        have hp := (mem_reachD _ _ _).mp hid
+        cases id with
+        | service m =>
+          simp [isServiceNode] at hsome
+          subst hsome
+          exact ⟨m, by simpa using hdc, tc_of_path p.out (.service n) (.service m) hp⟩
+        | _ => simp [isServiceNode] at hsome
+      · cases h
+    · rintro ⟨c, hc, htc⟩
+      have hp := path_of_tc p.out _ _ htc
+      have hany : ((List.filterMap isServiceNode (reachD (buildGraph p.out) (nService n))).any fun d =>
+          decide (scopeOf p.out d = Scope.contextual)) = true := by
+        apply List.any_eq_true.mpr
+        exact ⟨c, List.mem_filterMap.mpr ⟨nService c, (mem_reachD _ _ _).mpr hp, by simp [isServiceNode, nService]⟩, by simp [hc]⟩
+      rw [if_pos hany]
+  · split <;> simp
 
 end GM.C05
